@@ -79,7 +79,7 @@ func noReadRoutesJSON(matchTimeoutMs int) string {
 	return fmt.Sprintf(`{"routes":%s,"matching_timeout":"%dms"}`, drive.J(rs), matchTimeoutMs)
 }
 
-func routesJSON(matchTimeoutMs int, withTLS bool) string {
+func routesJSON(matchTimeoutMs int, withTLS, tlsFirst bool) string {
 	m := func(id string, b byte) map[string]any {
 		return map[string]any{"verif_m1": map[string]any{"id": id, "need": 1, "at": 0, "eq": int(b)}}
 	}
@@ -102,14 +102,21 @@ func routesJSON(matchTimeoutMs int, withTLS bool) string {
 		map[string]any{"match": []any{map[string]any{"verif_m2": map[string]any{"id": "SZ", "need": 2, "at": 1, "eq": int('Z')}}},
 			"handle": []any{map[string]any{"handler": "verif_sink", "name": "sinkS"}}}}}}})
 	if withTLS {
-		rs = append(rs, map[string]any{"match": []any{map[string]any{"tls": map[string]any{}}}, "handle": []any{map[string]any{"handler": "tls"}}})
+		tr := map[string]any{"match": []any{map[string]any{"tls": map[string]any{}}}, "handle": []any{map[string]any{"handler": "tls"}}}
+		if tlsFirst {
+			// TLS is terminated in front of the other routes: their matchers then look at (and prefetch) the plaintext
+			// before the connection falls through to the wrapped listener
+			rs = append([]any{tr}, rs...)
+		} else {
+			rs = append(rs, tr)
+		}
 	}
 	return fmt.Sprintf(`{"routes":%s,"matching_timeout":"%dms"}`, drive.J(rs), matchTimeoutMs)
 }
 
 type connPlan struct {
 	ID     string
-	Class  byte // A B C P E U F(lood) T(ls) L(ate) N(o-read fall-through) M(no-read, late)
+	Class  byte // A B C P Q V E U F(lood) T(ls) L(ate) N(o-read fall-through) M(no-read, late)
 	Stream []byte
 	Wire   []byte
 	Expect []byte // what the accepted connection must read (nil for non-delivered classes)
@@ -165,7 +172,8 @@ func oneRun(c *fw.Ctx, cert *tlsutil.Cert, index, nConns int) {
 	timeoutMs := 150 + r.Intn(200)
 	ctx := caddy.ActiveContext()
 	noRead := fw.Rand(c.Seed, "c13flavour", index).Intn(6) == 0
-	cfg := routesJSON(timeoutMs, true)
+	tlsFirst := fw.Rand(c.Seed, "c13tlspos", index).Intn(2) == 0
+	cfg := routesJSON(timeoutMs, true, tlsFirst)
 	if noRead {
 		cfg = noReadRoutesJSON(timeoutMs)
 	}
@@ -183,7 +191,8 @@ func oneRun(c *fw.Ctx, cert *tlsutil.Cert, index, nConns int) {
 	stopAfter := 1 + r.Intn(nConns/2+1)
 
 	// plan connections
-	classes := []byte("ABBBCCPPEUFTLSS")
+	// Q: like P with a v1 "PROXY UNKNOWN" header (no addresses declared), V: like P with a v2 header
+	classes := []byte("ABBBCCPPQQVEUFTTLSS")
 	plans := make([]*connPlan, nConns)
 	for k := range plans {
 		cl := classes[r.Intn(len(classes))]
@@ -223,7 +232,17 @@ func oneRun(c *fw.Ctx, cert *tlsutil.Cert, index, nConns int) {
 			hdr := []byte(fmt.Sprintf("PROXY TCP4 10.1.%d.%d 10.2.2.2 %d 443\r\n", k/250, k%250+1, 1000+k))
 			p.Wire = append(hdr, s...)
 			p.Expect = s
+		case 'Q':
+			s[0] = 'x'
+			p.Wire = append([]byte("PROXY UNKNOWN\r\n"), s...)
+			p.Expect = s
+		case 'V':
+			s[0] = 'x'
+			hdr := append([]byte("\r\n\r\n\x00\r\nQUIT\n"), 0x21, 0x11, 0, 12, 10, 1, byte(k/250), byte(k%250+1), 10, 2, 2, 2, byte((1000+k)>>8), byte(1000+k), 1, 187)
+			p.Wire = append(hdr, s...)
+			p.Expect = s
 		case 'T':
+			s[0] = 'x' // whatever routes follow the tls route see a first byte that none of them matches
 			p.Expect = s
 		case 'N', 'M':
 			p.Wire, p.Expect = s, s
@@ -424,7 +443,7 @@ func oneRun(c *fw.Ctx, cert *tlsutil.Cert, index, nConns int) {
 	}
 	delivered := 0
 	report := func(kind, what string, p *connPlan) {
-		w := map[string]any{"run": index, "pace": pace, "close": closeMode, "conn": p.ID, "class": string(p.Class), "stream_len": len(p.Stream), "segs": len(p.Segs)}
+		w := map[string]any{"run": index, "pace": pace, "close": closeMode, "tls_first": tlsFirst, "conn": p.ID, "class": string(p.Class), "stream_len": len(p.Stream), "segs": len(p.Segs)}
 		if p.rec != nil {
 			ev := p.rec.Events()
 			if len(ev) > 30 {
@@ -536,7 +555,7 @@ func oneRun(c *fw.Ctx, cert *tlsutil.Cert, index, nConns int) {
 				report("tls-state-wrong", fmt.Sprintf("ConnectionState() exposes server name %q / protocol %q", a.tls.ServerName, a.tls.NegotiatedProtocol), p)
 			}
 		}
-		if p.Class == 'P' {
+		if p.Class == 'P' || p.Class == 'V' {
 			want := fmt.Sprintf("10.1.")
 			if len(a.raddr) < 5 || a.raddr[:5] != want {
 				report("proxy-address-lost", fmt.Sprintf("accepted connection after proxy_protocol has remote address %q, want the header's 10.1.x.y", a.raddr), p)
